@@ -26,9 +26,11 @@ def ex_filterblock(repo):
 
 def obligations():
     return [
-        KModelOb('O3.1-filter-block', 'filterblock', 'filter_block_step', 'Storage::filter_block (real text): the committed batch is exactly the ground-truth delta - live cell + history + '
+        KModelOb('O3.1-filter-block', 'filterblock', 'filter_block_lock_only', 'Storage::filter_block (real text): the committed batch is exactly the ground-truth delta - live cell + history + '
                  'transaction row for every output of a registered script, deletion of the RIGHT live cell + input history for every spent cell (also spends of '
                  'outputs created earlier in the same block), header rows iff something matched, nothing else', ex_filterblock,
-                 '2 txs x 1 input x 1 output, lock + type script registered, 1 stored transaction, arbitrary numbers', cuts=CUTS, timeout=2400, mem_gb=16,
-                 min_covers=2, weight=9),
+                 '2 txs x 1 input x 1 output, outputs WITHOUT type scripts (one lock and one type script registered), 1 stored transaction, arbitrary numbers', cuts=CUTS,
+                 timeout=2400, mem_gb=16, min_covers=2, weight=9, tiers=('quick',)),
+        KModelOb('O3.1-filter-block-t', 'filterblock', 'filter_block_lock_and_type', 'as O3.1 with outputs that may also carry a type script', ex_filterblock,
+                 '2 txs x 1 input x 1 output with optional type scripts', cuts=CUTS, timeout=3500, mem_gb=24, min_covers=2, weight=9, tiers=('thorough',)),
     ] + C13.key_obligations('O3.3')
